@@ -41,6 +41,24 @@ func ruleC01_1(c *Ctx) {
 			continue
 		}
 		c.ok(R, fn, "guard call "+fname(e.guardFn), e.guard.Pos(), "called with parameters "+e.env.Name()+", "+e.keys.Name())
+		if e.head != nil {
+			// the guard sits in a head helper: inside it, nothing that consumes the Metadata / keys runs before the guard
+			hn := fname(e.head)
+			c.ok(R, hn, "guard call "+fname(e.guardFn)+" inside the head helper", e.headGuard.Pos(), "every success return of the helper lies under its nil-error edge; the entry point calls the helper with its own (Metadata, keys)")
+			fe, _ := c.frameEntry(e, e.guard)
+			fe.guard, fe.guardFn = e.headGuard, e.guardFn
+			for _, s := range c.trustingCalls(fe) {
+				cc := s.Common()
+				if cc.IsInvoke() && cc.Value == ssa.Value(fe.env) && cc.Method.Name() != "GetPayload" {
+					continue
+				}
+				c.check(c.okCallAt(e.headGuard, s.Block()), R, hn, "sink call "+calleeName(s), s.Pos(), "dominated by nil-error edge of "+fname(e.guardFn),
+					"call is reachable without a successful "+fname(e.guardFn)+"(env, keys): the layout / keys are used before the layout signature is verified")
+			}
+			if callers := c.foreignCallers(e.head); len(callers) > 0 {
+				c.bad(R, hn, "callers of the head helper", e.head.Pos(), "also called from "+strings.Join(callers, ", ")+": the rules below are decided for the entry points only")
+			}
+		}
 		for _, s := range c.trustingCalls(e) {
 			c.check(c.okCallAt(e.guard, s.Block()), R, fn, "sink call "+calleeName(s), s.Pos(),
 				"dominated by nil-error edge of "+fname(e.guardFn),
@@ -536,8 +554,12 @@ func (c *Ctx) c01EnvelopeBinding(R string) {
 				c.bad(R, fname(sg), "stored payload", st.Pos(), "Sign must not replace the payload object")
 			case "envelope":
 				okBody := derives(st.Val, func(v ssa.Value) bool {
-					k, ok := v.(*ssa.Call)
-					return ok && calleeName(k) == "(*ssl/dsse.Envelope).DecodeB64Payload" && org(k.Call.Args[0]) == "p0.envelope"
+					// (org sees through an unexported helper that only forwards to DecodeB64Payload)
+					switch v.(type) {
+					case *ssa.Call, *ssa.Extract:
+						return strings.HasPrefix(org(v), "(*ssl/dsse.Envelope).DecodeB64Payload(p0.envelope)")
+					}
+					return false
 				}, true) || org(st.Val) == "p0.envelope"
 				c.check(okBody, R, fname(sg), "stored envelope", st.Pos(), "signed body is DecodeB64Payload() of the receiver's envelope", "Sign stores an envelope whose body is not the receiver's current payload bytes: "+org(st.Val))
 			}
